@@ -449,6 +449,15 @@ func genTunnel(r *sim.Rng) (hcase, hcase) {
 	ps, notes, mf := genPrices(r, n, true)
 	seq, created, enc := advU64(r), advI64(r), genEncoder(r)
 	a := tunnelCase(seq, ps, created, enc, notes, mf)
+	// sibling for an id with leading NULs: the same packet with the id stripped (a different
+	// on-chain signal) - the injectivity monitor then sees both inputs
+	for i, p := range ps {
+		if st := strings.TrimLeft(p.id, "\x00"); st != p.id && st != "" {
+			sp := append([]priceSpec{}, ps...)
+			sp[i].id = st
+			return a, tunnelCase(seq, sp, created, enc, nil, mf)
+		}
+	}
 	// sibling: sequence / created_at swapped into each other's slot, or the list shortened
 	switch r.Intn(3) {
 	case 0:
